@@ -12,7 +12,7 @@ use std::sync::{Arc, Condvar, Mutex};
 use std::time::{Duration, Instant};
 use tracing_appender::non_blocking::NonBlockingBuilder;
 
-struct G { log: Vec<String>, permits: VecDeque<(char, bool)> }
+struct G { log: Vec<String>, permits: VecDeque<(char, bool)>, short: usize, cur: Vec<u8> }
 struct Shared { m: Mutex<G>, cv: Condvar }
 struct Gated(Arc<Shared>);
 
@@ -34,8 +34,24 @@ impl Gated {
 }
 impl Write for Gated {
     fn write(&mut self, buf: &[u8]) -> io::Result<usize> {
-        let id = String::from_utf8_lossy(buf).trim().trim_start_matches('L').to_string();
-        if self.gate('w', format!("aw{}", id), &format!("w{}", id)) { Ok(buf.len()) } else { Err(io::Error::new(io::ErrorKind::Other, "scripted")) }
+        // short writes (`short` > 0): the writer takes at most `short` bytes per call, as a pipe or a socket may; a line has
+        // arrived — and its write is gated — when its last byte has
+        let (take, whole) = {
+            let mut g = self.0.m.lock().unwrap();
+            let take = if g.short > 0 { buf.len().min(g.short) } else { buf.len() };
+            if buf.first() == Some(&b'L') && !g.cur.is_empty() {
+                // a new line starts although the previous one never got its tail: that line was written torn
+                let torn = String::from_utf8_lossy(&g.cur).trim().trim_start_matches('L').to_string();
+                g.log.push(format!("torn{}", torn));
+                g.cur.clear();
+            }
+            g.cur.extend_from_slice(&buf[..take]);
+            let whole = if g.cur.ends_with(b"\n") { Some(std::mem::take(&mut g.cur)) } else { None };
+            (take, whole)
+        };
+        let whole = match whole { Some(w) => w, None => return Ok(take) };
+        let id = String::from_utf8_lossy(&whole).trim().trim_start_matches('L').to_string();
+        if self.gate('w', format!("aw{}", id), &format!("w{}", id)) { Ok(take) } else { Err(io::Error::new(io::ErrorKind::Other, "scripted")) }
     }
     fn flush(&mut self) -> io::Result<()> {
         if self.gate('f', "af".into(), "f") { Ok(()) } else { Err(io::Error::new(io::ErrorKind::Other, "scripted")) }
@@ -63,7 +79,10 @@ fn main() {
     let sep = toks.iter().position(|t| *t == ";;").expect(";;");
     let cap: usize = toks[0].trim_start_matches("cap=").parse().unwrap();
     let lossy = toks[1] == "lossy=1";
-    let sh = Arc::new(Shared { m: Mutex::new(G { log: Vec::new(), permits: VecDeque::new() }), cv: Condvar::new() });
+    // (the pacing of the underlying writer is a function of the script, so that the model needs no extra input: whole writes,
+    //  or at most 1 / 2 bytes per call)
+    let short = toks.len() % 3;
+    let sh = Arc::new(Shared { m: Mutex::new(G { log: Vec::new(), permits: VecDeque::new(), short, cur: Vec::new() }), cv: Condvar::new() });
     let (nb, guard) = NonBlockingBuilder::default().buffered_lines_limit(cap).lossy(lossy).finish(Gated(sh.clone()));
     let counter = nb.error_counter();
     let mut guard = Some(guard);
@@ -127,7 +146,8 @@ fn main() {
             "end" => {
                 let exited = sh.m.lock().unwrap().log.iter().any(|e| e == "x");
                 if exited { if let Some(h) = drop_thread.take() { let _ = h.join(); } }
-                format!("dropped={},writerdropped={}", counter.dropped_lines(), if exited { 1 } else { 0 })
+                let torn: Vec<String> = sh.m.lock().unwrap().log.iter().filter(|e| e.starts_with("torn")).cloned().collect();
+                format!("dropped={},writerdropped={}{}", counter.dropped_lines(), if exited { 1 } else { 0 }, if torn.is_empty() { String::new() } else { format!(",{}", torn.join(",")) })
             }
             _ => "bad-op".into(),
         };
@@ -142,7 +162,11 @@ fn main() {
             if !wait_for(&sh, cursor, w) { out.push_str(":NOWAIT"); }
             if w == "x" { if let Some(h) = drop_thread.take() { let _ = h.join(); } }
         }
+        let stuck = out.contains("NOWAIT") || out.contains("TIMEOUT");
         outs.push(out);
+        // the script has left the state machine it was generated for: nothing after this point means anything (and every
+        // further wait would run into its time limit)
+        if stuck { break; }
     }
     println!("{}", outs.join(" "));
     // threads that are still blocked (a guard whose worker never exits, a producer on a full queue) are abandoned
